@@ -153,6 +153,8 @@ theorem step_noCorr (cfg : Cfg) (s t : St) (f : Bool) (h : Step cfg f s t) (inv 
     (try simp only [St.setDone, St.setBg, ↓reduceIte, Bool.false_eq_true, Bool.and_false, Bool.and_true, Bool.false_and, Bool.true_and]) <;> (repeat' split) <;> simp_all [corrB, corrPh_run, corrPh_idle, corrPh_exited, corrPh_parked, corrPh_clearW, corrPh_afterCmd, St.bg, afterSetErr]
   | clAcq _ i hi ht =>
     (try simp only [St.setDone, St.setBg, ↓reduceIte, Bool.false_eq_true, Bool.and_false, Bool.and_true, Bool.false_and, Bool.true_and]) <;> (repeat' split) <;> simp_all [corrB, corrPh_run, corrPh_idle, corrPh_exited, corrPh_parked, corrPh_clearW, corrPh_afterCmd, St.bg, afterSetErr]
+  | clAcqKept _ i hi he hk hs =>
+    (try simp only [St.setDone, St.setBg, ↓reduceIte, Bool.false_eq_true, Bool.and_false, Bool.and_true, Bool.false_and, Bool.true_and]) <;> (repeat' split) <;> simp_all [corrB, corrPh_run, corrPh_idle, corrPh_exited, corrPh_parked, corrPh_clearW, corrPh_afterCmd, St.bg, afterSetErr]
   | clWait _ i hi hm ht =>
     (try simp only [St.setDone, St.setBg, ↓reduceIte, Bool.false_eq_true, Bool.and_false, Bool.and_true, Bool.false_and, Bool.true_and]) <;> (repeat' split) <;> simp_all [corrB, corrPh_run, corrPh_idle, corrPh_exited, corrPh_parked, corrPh_clearW, corrPh_afterCmd, St.bg, afterSetErr]
   | ehAcquire _ he ht =>
